@@ -56,6 +56,12 @@ func (prop) Run(t *testing.T, s *sim.Sim, res *runner.Result) {
 		Started: func(w *xrworld.W, wl *xrworld.Workload) {
 			st.w = w
 			st.claims = xrworld.DrawClaims(s.Tape, wl, xrworld.DrawParams{}, 2)
+			if len(st.claims) > 0 && s.Tape.Next(2) == 0 {
+				// a claim of the same name in another namespace (a manifest copied across namespaces)
+				twin := *st.claims[0]
+				twin.NS = "other"
+				st.claims = append(st.claims, &twin)
+			}
 			for _, c := range st.claims {
 				if s.Tape.Next(3) > 0 {
 					w.CreateClaim(c)
@@ -86,9 +92,13 @@ func (prop) Run(t *testing.T, s *sim.Sim, res *runner.Result) {
 				}
 			}
 			// a user points a claim that has no XR yet at another claim's XR
-			if len(st.claims) == 2 {
+			if len(st.claims) >= 2 {
 				acts = append(acts, sim.Action{Key: "user points c1 at c0's XR", Weight: 1, Run: func() { st.pointAt(st.claims[1], st.claims[0]) }})
 			}
+			if n := len(st.claims); n >= 2 && st.claims[n-1].NS == "other" {
+				acts = append(acts, sim.Action{Key: "user points other/c0 at default/c0's XR", Weight: 2, Run: func() { st.pointAt(st.claims[n-1], st.claims[0]) }})
+			}
+			acts = append(acts, sim.Action{Key: "the name generator repeats names it has handed out before", Weight: 1, Run: func() { kit.RepeatNames(); w.S.Probe("generated-names-repeat") }})
 			for _, k := range w.Store.GCCandidates() {
 				k := k
 				acts = append(acts, sim.Action{Key: "k8s-gc " + k.String(), Weight: 6, Run: func() { w.Store.GCStep(k) }})
@@ -147,9 +157,23 @@ func (st *state) onLog(e *simapi.LogEntry) {
 		return
 	}
 	// O3: never modify, rebind or delete an XR bound to a different claim.
-	if e.Before != nil {
+	if e.Before != nil && e.Err == nil {
 		if ns, name, ok := claimRefOf(e.Before); ok && (ns != ck.Namespace || name != ck.Name) {
-			w.S.Violate("C06/touched-foreign-xr", fmt.Sprintf("reconcile of claim %s issued %s on XR %s, which is bound to claim %s/%s", ck, e.Verb, e.Key.Name, ns, name))
+			sig := "C06/touched-foreign-xr"
+			// did this reconcile itself see the XR absent or unbound, and the other
+			// claim bound it between that look and this write?
+			first := true
+			for _, l := range w.Store.Log {
+				if l.TaskID == e.TaskID && l.Seq < e.Seq && l.Read && l.Verb == "get" && l.Key == e.Key && l.Injected == "" {
+					if first {
+						if _, _, bound := claimRefOf(l.After); l.After == nil || !bound {
+							sig += "/bound-by-the-other-claim-after-this-reconcile-first-looked"
+						}
+						first = false
+					}
+				}
+			}
+			w.S.Violate(sig, fmt.Sprintf("reconcile of claim %s committed %s on XR %s, which is bound to claim %s/%s", ck, e.Verb, e.Key.Name, ns, name))
 		}
 	}
 	// O1/O2: XR creation.
@@ -158,6 +182,15 @@ func (st *state) onLog(e *simapi.LogEntry) {
 		if cm == nil {
 			w.S.Violate("C06/xr-created-for-missing-claim", fmt.Sprintf("XR %s created by a reconcile of claim %s, which no longer exists", e.Key.Name, ck))
 			return
+		}
+		// a retry reuses the recorded name: the claim as this reconcile first read it
+		for _, l := range w.Store.Log {
+			if l.TaskID == e.TaskID && l.Read && l.Verb == "get" && l.Key.Kind == xrworld.ClaimGVK.Kind && l.Key.Name == ck.Name && l.Key.NS == ck.Namespace && l.After != nil {
+				if rec, _, _ := unstructured.NestedString(l.After, "spec", "resourceRef", "name"); rec != "" && rec != e.Key.Name {
+					w.S.Violate("C06/retry-used-another-name", fmt.Sprintf("claim %s had recorded XR name %q when this reconcile read it, but the reconcile created XR %s", ck, rec, e.Key.Name))
+				}
+				break
+			}
 		}
 		ref, _, _ := unstructured.NestedString(cm, "spec", "resourceRef", "name")
 		if ref != e.Key.Name {
